@@ -91,6 +91,18 @@ def load_order(fsm, main):
     return order, missing, backs
 
 
+def harmful_back_import(fsm, main):
+    """Negation of the Coq predicate `safe`: a followed import (cur, a) of a grammar still being loaded
+    such that some unqualified name written in cur is not cur's own, not a built-in, and defined by a."""
+    order, missing, backs = load_order(fsm, main)
+    for cur, a in backs:
+        for r in fsm[cur]["rules"]:
+            for kind, name in r["items"]:
+                if "." not in name and not defines(fsm, cur, name) and name not in BASE_NAMES and defines(fsm, a, name):
+                    return True
+    return False
+
+
 def classify(fsm, main):
     """Finding class: some grammar refers (unqualified, not defined by itself, not a built-in;
     or qualified) to a rule of a grammar that is still being loaded when it is imported/used."""
@@ -424,6 +436,9 @@ def compare(case, o, mv):
         sim = ";".join("%s>%s" % (core.canon_text(a), core.canon_text(b)) for a, b in load_order(fs_map(case), case["mainns"])[2])
         if m["B"] != sim:
             diffs.append("B: classifier simulation %r model %r" % (sim, m["B"]))
+        # the theorem's hypothesis `safe` (Coq) = no harmful back import by the classifier's rule
+        if m["F"] != ("F" if harmful_back_import(fs_map(case), case["mainns"]) else "T"):
+            diffs.append("F: classifier and the model's `safe` differ (model %s)" % m["F"])
         for k in ("S", "I", "Q"):
             if m[k] != i[k]:
                 diffs.append("%s: impl %r model %r" % (k, i[k], m[k]))
